@@ -128,6 +128,8 @@ def correspond(ctx):
         for i in p['ins']:
             if i[0] in ('bin', 'un') and i[-1] == 'func':
                 c.count('form:%s-func%s' % (i[0], '-number-first' if i[0] == 'bin' and i[2][0] == 'c' else ''))
+        if p.get('irshape') or p.get('krshape'):
+            c.count('array-valued-parameters:' + ('builds' if d['ok'] else 'fails'))
         for b_ in p.get('blocks', []):
             c.count('sum-helper:%s:%s' % (b_[2]['form'], 'builds' if d['ok'] else 'fails'))
         for g in p.get('mce', []):
